@@ -316,7 +316,7 @@ def _pw_model(case, rec, rng):
                     outs = [res, dres]
             _finite(rec, "model", outs, "%s[%s,nspin=%d]" % ("MappedXC2" if v2 else "MappedXC", mode, nspin))
             if rc > 0 and not v2:
-                # rule read from the code: SEP per channel on X0T[:, 0]; NPOL / POL on the sum over channels
+                # SEP per channel on X0T[:, 0]; NPOL / POL on the total density
                 dens = XN[:, 0]
                 if mode == "SEP":
                     below_all = np.all(dens < rc, axis=0)
@@ -325,7 +325,7 @@ def _pw_model(case, rec, rng):
                         b = dens[s] < rc
                         rec.require("zero_below[deriv]", bool(np.all(dres[s][:, b] == 0)), mechanism="MappedXC[%s]:derivative-nonzero-below-rhocut" % mode)
                 else:
-                    b = dens.sum(0) < rc
+                    b = dens.mean(0) < rc  # spin-scaled densities: mean over spin = total density
                     rec.require("zero_below[value]", bool(np.all(res[..., b] == 0)), mechanism="MappedXC[%s]:energy-nonzero-below-rhocut" % mode)
                     rec.require("zero_below[deriv]", bool(np.all(dres[..., b] == 0)), mechanism="MappedXC[%s]:derivative-nonzero-below-rhocut" % mode)
         rec.nontrivial("model|%s|%s|%s|%d" % (fam, mode, cfg["model"], nspin))
@@ -369,7 +369,7 @@ def _pw_evalxc(case, rec, rng):
             if mode == "SEP":
                 below = np.all(dens < rc, axis=0)
             else:
-                below = dens.sum(0) < rc
+                below = dens.mean(0) < rc
             tot = rho[:, 0].sum(0)
             ml_e = (exc - exc0) * tot
             rec.require("ml_energy_zero_below_cutoff", bool(np.all(ml_e[below] == 0)),
